@@ -43,7 +43,7 @@ ASSUMPTIONS = [
     "real pools under switch-interval jitter are not used: a failure there would not replay",
     "the gated parallel_workers/task_count metrics are excluded from the T1 comparison (they describe the pool, not the result)",
 ]
-SHRINK_FIELDS = ["tasks", "ops"]
+SHRINK_FIELDS = ["tasks", "ops", "calls"]
 
 
 # ---------------------------------------------------------------------------
@@ -76,6 +76,18 @@ def generate(seed: int, tier: str) -> Dict[str, Any]:
                 raw["perf"]["t1"]["caps"] = r.choice([{"frontier": 2}, {"visited": 2}])
         prog.update({"world": world, "cfg": raw, "workers": r.randint(2, 8),
                      "texts": [E.gen_text(rng.stream("ops")) for _ in range(r.randint(1, 3))]})
+        if r.chance(0.5):
+            # a history: few distinct texts asked again over varying, differently ordered subsets of the graphs, with a
+            # result cache small enough to evict - cache recency and eviction order become part of what must be equal
+            gids = sorted(world["graphs"])
+            base_texts = prog["texts"][:2]
+            calls = []
+            for _ in range(r.randint(2, 6)):
+                sub = r.sample(gids, r.randint(1, len(gids)))
+                calls.append({"text": r.choice(base_texts), "graphs": sub})
+            prog["calls"] = calls
+            if r.chance(0.6):
+                raw.setdefault("t1", {})["cache"] = {"max_entries": r.choice([1, 2, 3]), "ttl_s": 300}
     else:
         world = E.gen_world(rng.stream("world"), n_agents=2, max_graphs=1, max_eps=12, odd_ids=False)
         while len(world["episodes"]) < 3:
@@ -177,7 +189,11 @@ def _stage_once(prog: Dict[str, Any], parallel: bool, stream) -> Tuple[List[Any]
                 state = E.build_state(prog["world"])
                 agent = prog.get("agent") or sorted(prog["world"]["agents"])[0]
                 state["active_graphs"] = sorted(prog["world"]["graphs"]) if prog["target"] == "t1" else list(prog["world"]["agents"][agent])
-                for i, text in enumerate(prog["texts"]):
+                calls = prog.get("calls") or [{"text": t} for t in prog["texts"]]
+                for i, call in enumerate(calls):
+                    text = call["text"]
+                    if call.get("graphs"):
+                        state["active_graphs"] = list(call["graphs"])
                     ctx = E.make_ctx(cfg, agent, i, E.T0_MS + i)
                     if prog["target"] == "t1":
                         res = t1_propagate(ctx, state, text)
@@ -257,7 +273,7 @@ def execute(prog: Dict[str, Any]) -> Dict[str, Any]:
                             sub = ":" + [k for k in a[field] if a[field].get(k) != b[field].get(k)][0]
                         bad("stage", "%s:differs:%s%s" % (target, field, sub),
                             "call %d (%r): sequential %s VS parallel %s (workers %s, schedule %s)" % (
-                                i, prog["texts"][i], str(a[field])[:220], str(b[field])[:220], prog["workers"], info["sched"]))
+                                i, (prog.get("calls") or [{"text": t} for t in prog["texts"]])[i], str(a[field])[:220], str(b[field])[:220], prog["workers"], info["sched"]))
                         break
     return {"violations": violations, "stats": stats, "faults": {}, "nontrivial": nontrivial,
             "keys": ["%s|%s|%s" % (target, E.jdigest({k: v for k, v in prog.items() if k != "sched_seeds"}), s) for s in scheds] or None,
